@@ -677,7 +677,31 @@ func (m *Model) Equal(a, b any) (bool, Status) {
 		if a.(*MapRef).ID == b.(*MapRef).ID {
 			return true, StOK // reflexivity
 		}
-		return false, m.why(StUnspec, "equality of two different maps")
+		// two maps are equal when they hold the same keys with equal values, the way arrays are
+		// equal element by element (a key bound to nil is a key: {a: nil} is not {b: nil}, nor {})
+		x, y := a.(*MapRef).M, b.(*MapRef).M
+		if len(x) != len(y) {
+			return false, StOK
+		}
+		unspec := false
+		for k, xv := range x {
+			yv, ok := y[k]
+			if !ok {
+				return false, StOK
+			}
+			eq, st := m.Equal(xv, yv)
+			if st == StUnspec {
+				unspec = true
+				continue
+			}
+			if !eq {
+				return false, StOK
+			}
+		}
+		if unspec {
+			return false, StUnspec
+		}
+		return true, StOK
 	}
 	return false, StUnspec
 }
